@@ -266,6 +266,12 @@ class Prelude:
             z3.Implies(z3.And(0 <= i, i < ln(s)), idx(app(s, t), i) == idx(s, i)),
             z3.Implies(z3.And(ln(s) <= i, i < ln(s) + ln(t)), idx(app(s, t), i) == idx(t, i - ln(s)))),
             patterns=[idx(app(s, t), i)]))
+        # reverse direction (keeps existential witnesses alive across an append): an element of s is an element of s ++ t
+        A(f"{n}.idx_app_left", z3.ForAll([s, t, i], z3.Implies(z3.And(0 <= i, i < ln(s)), idx(app(s, t), i) == idx(s, i)),
+                                         patterns=[z3.MultiPattern(app(s, t), idx(s, i))]))
+        A(f"{n}.idx_app_right", z3.ForAll([s, t, i], z3.Implies(z3.And(0 <= i, i < ln(t)), idx(app(s, t), ln(s) + i) == idx(t, i)),
+                                          patterns=[z3.MultiPattern(app(s, t), idx(t, i))]))
+        A(f"{n}.idx_app_last", z3.ForAll([s, x], idx(app(s, unit(x)), ln(s)) == x, patterns=[app(s, unit(x))]))
         A(f"{n}.app_empty_r", z3.ForAll([s], app(s, emp) == s, patterns=[app(s, emp)]))
         A(f"{n}.app_empty_l", z3.ForAll([s], app(emp, s) == s, patterns=[app(emp, s)]))
         A(f"{n}.len_take", z3.ForAll([s, k], z3.Implies(z3.And(0 <= k, k <= ln(s)), ln(take(s, k)) == k), patterns=[take(s, k)]))
